@@ -258,8 +258,7 @@ variable {δ : Type}
 /-- alias/dat, merge-and-sort, dedup: the normalised program means what the written one means, and
 every rule still has a function. -/
 theorem pipeline_core (S : Sem δ) (g : Geo) (aliasing : Bool) (rs out : Prog) (hwf : ParserWF rs)
-    (hp : (datOpt g (preOpt aliasing rs)).map (fun e => dedupOpt (mergeSortOpt e)) = some out)
-    (hok : ∀ E, datOpt g (preOpt aliasing rs) = some E → emptyOk S E = true) :
+    (hp : (datOpt g (preOpt aliasing rs)).map (fun e => dedupOpt (mergeSortOpt e)) = some out) :
     (∀ fb must, firstMatchAst S out fb must = firstMatchAst (userSem S g aliasing) rs fb must) ∧
       neP out = true := by
   cases hE : datOpt g (preOpt aliasing rs) with
@@ -267,10 +266,10 @@ theorem pipeline_core (S : Sem δ) (g : Geo) (aliasing : Bool) (rs out : Prog) (
   | some E =>
     simp only [hE, Option.map_some, Option.some.injEq] at hp
     subst hp
-    have hokE := hok E hE
-    have hexp := firstMatchAst_expand S g aliasing rs E hwf hE hokE
+    have hexp := firstMatchAst_expand S g aliasing rs E hwf hE
+    have hokE := emptyOk_of_paramsOk S E hexp.2.2
     refine ⟨fun fb must => ?_, ?_⟩
     · rw [firstMatchAst_dedupOpt, firstMatchAst_mergeSortOpt S E hokE, hexp.1]
-    · rw [neP_dedupOpt]; exact neP_mergeSortOpt E hexp.2
+    · rw [neP_dedupOpt]; exact neP_mergeSortOpt E hexp.2.1
 
 end DaeVerif.C04
